@@ -163,8 +163,13 @@ def check_hoomd(rec, cs, s, which, info, c):
     if set(d) != want:
         return
     cen = np.asarray(d["centroid"], float)
-    ok_c = cen.shape == (3,) and bool(np.all(np.abs(cen) <= 1e-12 * (1 + float(np.abs(np.asarray(info.get("size", 1.0))))) + 1e-15))
-    rec.check("to_hoomd:centred-shape", bool(np.all(np.abs(cen) <= 1e-9)), f"{which}.to_hoomd/centroid-key-not-zero", lambda: dict(info, centroid=cen))
+    # "zero" is relative to the size of the shape (a solid of size 1e6 is centred to 1e-9 at best)
+    if "vertices" in info:
+        size = float(np.ptp(np.asarray(info["vertices"], float), axis=0).max())
+    else:
+        size = max(float(info.get(k, 0.0)) for k in ("radius", "a", "b", "c"))
+    rec.check("to_hoomd:centred-shape", cen.shape == (3,) and bool(np.all(np.abs(cen) <= 1e-9 * max(size, 1e-300))),
+              f"{which}.to_hoomd/centroid-key-not-zero", lambda: dict(info, centroid=cen, size=size))
     with contracts.quiet():
         if which in ("Polyhedron", "ConvexPolyhedron", "ConvexSpheropolyhedron"):
             V = np.array(d["vertices"], float)
@@ -240,80 +245,86 @@ def run_case(i, rng, rec, tier, state):
     with contracts.quiet():
         for a in ("vertices", "radius", "a", "b", "c", "centroid", "normal"):
             try:
-                info[a] = getattr(s, a)
+                v = getattr(s, a)
+                info[a] = np.array(v, copy=True) if isinstance(v, np.ndarray) else v     # never an alias of internal state
             except Exception:
                 pass
         if which == "Polyhedron":
             info["faces"] = [[int(x) for x in f] for f in s.faces]
     dims = 2 if which in ("Circle", "Ellipse", "Polygon", "ConvexPolygon", "ConvexSpheropolygon") else 3
-    # --- GSD round trip ------------------------------------------------------
-    try:
-        spec = s.gsd_shape_spec
-        r = coxeter.from_gsd_type_shapes(spec, dimensions=dims)
-        okcls = type(r) is type(s) or (type(s) is cs.Polygon and type(r) is cs.ConvexPolygon and c.get("convex", False))
-        why = None if not okcls else same_data(cs, s, r, False, info)
-        rec.check("gsd-roundtrip", okcls and why is None, f"{which}.gsd_shape_spec/round-trip-" + ("class-differs" if not okcls else str(why).replace(" ", "-")),
-                  lambda: dict(info, spec_type=spec.get("type"), result=type(r).__name__))
-        # the other dimensionality must give the other class for spheres/ellipsoids
-        if which in ("Circle", "Sphere", "Ellipse", "Ellipsoid"):
-            other = coxeter.from_gsd_type_shapes(dict(spec, c=spec.get("c", 1.0)) if which == "Ellipse" else spec, dimensions=5 - dims)
-            want = {"Circle": "Sphere", "Sphere": "Circle", "Ellipse": "Ellipsoid", "Ellipsoid": "Ellipse"}[which]
-            rec.check("gsd-roundtrip", type(other).__name__ == want, f"{which}.gsd_shape_spec/dimensions-argument-ignored", lambda: dict(info, got=type(other).__name__))
-    except Exception as e:
-        rec.violation("gsd-roundtrip", f"{which}.gsd_shape_spec/round-trip-raises-{type(e).__name__}", dict(info, exc=repr(e)[:300]))
-        spec = None
-    if spec is not None and i % 3 == 0:
-        for bad in ({k: v for k, v in spec.items() if k != "type"}, dict(spec, type="NoSuchType"), dict(spec, type=None)):
-            try:
-                coxeter.from_gsd_type_shapes(bad, dimensions=dims)
-                rec.violation("gsd-bad-type-ValueError", "from_gsd_type_shapes/accepts-missing-or-unknown-type", {"spec_keys": sorted(bad), "type": bad.get("type", "<missing>")})
-            except ValueError:
-                rec.ok("gsd-bad-type-ValueError")
-            except Exception as e:
-                rec.violation("gsd-bad-type-ValueError", f"from_gsd_type_shapes/bad-type-raises-{type(e).__name__}", {"type": bad.get("type", "<missing>")})
-    # --- repr round trip -----------------------------------------------------
-    ns = {"coxeter": coxeter, "array": np.array, "np": np, "numpy": np, "int32": np.int32, "int64": np.int64, "float64": np.float64,
-          "nan": float("nan"), "inf": float("inf")}
-    try:
-        text = repr(s)
-        r = eval(text, ns)      # what a user pasting the repr has
-        okcls = type(r) is type(s) or (isinstance(s, type(r)) and type(r) in (cs.Polyhedron, cs.Polygon))
-        why = None if not okcls else same_data(cs, s, r, True, info)
-        rec.check("repr-roundtrip", okcls and why is None, f"{which}.__repr__/round-trip-" + ("class-differs" if not okcls else str(why).replace(" ", "-")),
-                  lambda: dict(info, repr=text[:300], result=type(r).__name__))
-        rec.check("repr-roundtrip", str(s) == text, f"{which}.__str__/differs-from-repr", lambda: info)
-    except Exception as e:
-        rec.violation("repr-roundtrip", f"{which}.__repr__/eval-raises-{type(e).__name__}", dict(info, exc=repr(e)[:300]))
-    # --- to_json -------------------------------------------------------------
-    attrs = [a for a in ("centroid", "vertices", "area", "volume", "radius", "a", "normal", "iq") if hasattr(type(s), a)]
-    attrs = [attrs[int(k)] for k in rng.permutation(len(attrs))[: max(1, len(attrs) // 2 + 1)]]
-    try:
-        with warnings.catch_warnings():
-            warnings.simplefilter("ignore")
-            d = s.to_json(list(attrs))
-        ok = list(d) == attrs
-        if ok:
-            with contracts.quiet():
-                for a in attrs:
-                    try:
-                        ok = ok and np.array_equal(np.asarray(d[a]), np.asarray(getattr(s, a)))
-                    except Exception:
-                        ok = False
-        rec.check("to_json", bool(ok), f"{which}.to_json/not-exactly-the-requested-attributes", lambda: dict(info, requested=attrs, got=list(d)))
-    except NotImplementedError:
-        rec.note(f"{which}.to_json: a requested attribute is not provided")
-    except Exception as e:
-        rec.violation("to_json", f"{which}.to_json/raises-{type(e).__name__}", dict(info, requested=attrs, exc=repr(e)[:200]))
-    try:
-        s.to_json(["no_such_attribute"])
-        rec.violation("to_json", f"{which}.to_json/unknown-attribute-accepted", info)
-    except AttributeError:
-        rec.ok("to_json")
-    except Exception as e:
-        rec.violation("to_json", f"{which}.to_json/unknown-attribute-raises-{type(e).__name__}", info)
-    # --- to_hoomd ------------------------------------------------------------
-    if which in HOOMD_KEYS:
-        check_hoomd(rec, cs, s, which, info, c)
+    # every representation is taken up to three times from the same object: a representation taken after an earlier
+    # export (to_hoomd moves the shape to the origin and back) still has to describe the shape
+    rounds = 3 if (i // len(classes)) % 2 == 0 else 1
+    rec.cls(f"rounds:{rounds}")
+    for rnd in range(rounds):
+        # --- GSD round trip ------------------------------------------------------
+        try:
+            spec = s.gsd_shape_spec
+            r = coxeter.from_gsd_type_shapes(spec, dimensions=dims)
+            okcls = type(r) is type(s) or (type(s) is cs.Polygon and type(r) is cs.ConvexPolygon and c.get("convex", False))
+            why = None if not okcls else same_data(cs, s, r, False, info)
+            rec.check("gsd-roundtrip", okcls and why is None, f"{which}.gsd_shape_spec/round-trip-" + ("class-differs" if not okcls else str(why).replace(" ", "-")),
+                      lambda: dict(info, spec_type=spec.get("type"), result=type(r).__name__))
+            # the other dimensionality must give the other class for spheres/ellipsoids
+            if which in ("Circle", "Sphere", "Ellipse", "Ellipsoid"):
+                other = coxeter.from_gsd_type_shapes(dict(spec, c=spec.get("c", 1.0)) if which == "Ellipse" else spec, dimensions=5 - dims)
+                want = {"Circle": "Sphere", "Sphere": "Circle", "Ellipse": "Ellipsoid", "Ellipsoid": "Ellipse"}[which]
+                rec.check("gsd-roundtrip", type(other).__name__ == want, f"{which}.gsd_shape_spec/dimensions-argument-ignored", lambda: dict(info, got=type(other).__name__))
+        except Exception as e:
+            rec.violation("gsd-roundtrip", f"{which}.gsd_shape_spec/round-trip-raises-{type(e).__name__}", dict(info, exc=repr(e)[:300]))
+            spec = None
+        if spec is not None and i % 3 == 0 and rnd == 0:
+            for bad in ({k: v for k, v in spec.items() if k != "type"}, dict(spec, type="NoSuchType"), dict(spec, type=None)):
+                try:
+                    coxeter.from_gsd_type_shapes(bad, dimensions=dims)
+                    rec.violation("gsd-bad-type-ValueError", "from_gsd_type_shapes/accepts-missing-or-unknown-type", {"spec_keys": sorted(bad), "type": bad.get("type", "<missing>")})
+                except ValueError:
+                    rec.ok("gsd-bad-type-ValueError")
+                except Exception as e:
+                    rec.violation("gsd-bad-type-ValueError", f"from_gsd_type_shapes/bad-type-raises-{type(e).__name__}", {"type": bad.get("type", "<missing>")})
+        # --- repr round trip -----------------------------------------------------
+        ns = {"coxeter": coxeter, "array": np.array, "np": np, "numpy": np, "int32": np.int32, "int64": np.int64, "float64": np.float64,
+              "nan": float("nan"), "inf": float("inf")}
+        try:
+            text = repr(s)
+            r = eval(text, ns)      # what a user pasting the repr has
+            okcls = type(r) is type(s) or (isinstance(s, type(r)) and type(r) in (cs.Polyhedron, cs.Polygon))
+            why = None if not okcls else same_data(cs, s, r, True, info)
+            rec.check("repr-roundtrip", okcls and why is None, f"{which}.__repr__/round-trip-" + ("class-differs" if not okcls else str(why).replace(" ", "-")),
+                      lambda: dict(info, repr=text[:300], result=type(r).__name__))
+            rec.check("repr-roundtrip", str(s) == text, f"{which}.__str__/differs-from-repr", lambda: info)
+        except Exception as e:
+            rec.violation("repr-roundtrip", f"{which}.__repr__/eval-raises-{type(e).__name__}", dict(info, exc=repr(e)[:300]))
+        # --- to_json -------------------------------------------------------------
+        attrs = [a for a in ("centroid", "vertices", "area", "volume", "radius", "a", "normal", "iq") if hasattr(type(s), a)]
+        attrs = [attrs[int(k)] for k in rng.permutation(len(attrs))[: max(1, len(attrs) // 2 + 1)]]
+        try:
+            with warnings.catch_warnings():
+                warnings.simplefilter("ignore")
+                d = s.to_json(list(attrs))
+            ok = list(d) == attrs
+            if ok:
+                with contracts.quiet():
+                    for a in attrs:
+                        try:
+                            ok = ok and np.array_equal(np.asarray(d[a]), np.asarray(getattr(s, a)))
+                        except Exception:
+                            ok = False
+            rec.check("to_json", bool(ok), f"{which}.to_json/not-exactly-the-requested-attributes", lambda: dict(info, requested=attrs, got=list(d)))
+        except NotImplementedError:
+            rec.note(f"{which}.to_json: a requested attribute is not provided")
+        except Exception as e:
+            rec.violation("to_json", f"{which}.to_json/raises-{type(e).__name__}", dict(info, requested=attrs, exc=repr(e)[:200]))
+        try:
+            s.to_json(["no_such_attribute"])
+            rec.violation("to_json", f"{which}.to_json/unknown-attribute-accepted", info)
+        except AttributeError:
+            rec.ok("to_json")
+        except Exception as e:
+            rec.violation("to_json", f"{which}.to_json/unknown-attribute-raises-{type(e).__name__}", info)
+        # --- to_hoomd ------------------------------------------------------------
+        if which in HOOMD_KEYS:
+            check_hoomd(rec, cs, s, which, info, c)
     rec.nontriv(which, info.get("vertices", info.get("a", info.get("radius"))), info.get("centroid"))
     if i < 10:
         rec.sample({"class": which, "repr": repr(s)[:160]})
